@@ -166,7 +166,7 @@ def validate(c: gen.Compiled, by_marker=True):
                 out.append((cl, fi.kind if fi else "-", f"{full}: {d}"))
             # instantiable
             try:
-                cls()
+                gen.instantiate(cls)
             except Exception as e:  # noqa: BLE001
                 out.append(("class_not_instantiable", type(e).__name__, f"{full}: {e}"[:200]))
         else:
@@ -366,6 +366,8 @@ def targets(ctx):
     PROBES = {
         "typing_name_as_type_name": {"p.proto": 'syntax = "proto3";\npackage p;\nmessage Optional { int32 a = 1; }\nmessage Holder { optional int32 b = 1; repeated int32 c = 2; }\n'},
     }
+
+    PROBES["field_named_like_annotation_type"] = {"p.proto": 'syntax = "proto3";\npackage p;\nimport "google/protobuf/timestamp.proto";\nimport "google/protobuf/duration.proto";\nmessage Shadow { google.protobuf.Timestamp datetime = 1; google.protobuf.Timestamp other = 2; optional google.protobuf.Duration timedelta = 3; repeated int32 list = 4; repeated int32 more = 5; map<int32, int32> dict = 6; map<int32, int32> d2 = 7; int32 mk20001 = 20001; }\n'}
 
     def probe_cases():
         for k in PROBES:
